@@ -170,6 +170,36 @@ def showGot (g : List (Nat × List Bytes)) : String :=
   if g.isEmpty then "." else
   ";".intercalate (g.map fun (id, ms) => s!"{id}={showHexList ms}")
 
+/-- linear-time stand-in for `!noEarlyFire` used only to CLASSIFY messages too large for the
+quadratic predicate (their hypotheses are never claimed to hold): some proper prefix ends right
+after the first end-of-message marker -/
+def early11From (ls : Bool) : Bytes → Bool
+  | [] => false
+  | c :: t =>
+    (ls && (match c :: t with | a :: b :: _ :: _ => a == HASH && b == HASH | _ => false))
+      || early11From (c == LF) t
+
+def earlyFast (v : Ver) (body : Bytes) : Bool :=
+  match v with
+  | .v10 => match afterFirstOpt .v10 body with | some r => !r.isEmpty | none => false
+  | .v11 => early11From true body
+
+def bigReason (v : Ver) (to : Nat) (isNotif : Bool) (body tail : Bytes) : String :=
+  joinReasons [(true, "big"), (!allLF tail, "tail"), (containsRpcClose (body ++ tail), "rpc"),
+    (!delimMatch v body, "nofire"), (earlyFast v body, "early"),
+    (!isNotif && !(firstId body == some to && to != 0), "id"),
+    (isNotif && msgKey body != 0, "nid")]
+
+def bigBurstReason (v : Ver) : Burst → String
+  | .echoOnly _ => "big"
+  | .replyOnly r => bigReason v r.to false r.body r.tail
+  | .echoReply _ r => bigReason v r.to false r.body r.tail
+
+def bigBurst2Reason (v : Ver) : Burst2 → String
+  | .echoOnly _ => "big"
+  | .msgOnly m => bigReason v m.to (m.to == 0) m.body m.tail
+  | .echoMsg _ m => bigReason v m.to (m.to == 0) m.body m.tail
+
 def deliveryReason (v : Ver) (d : Delivery) : String :=
   let r := match d.burst with
     | .echoOnly e => echoReason v e
@@ -194,10 +224,18 @@ def handleC08 : List String → String
   | ["sess", v, script] =>
     match c08ver v, (script.splitOn ";").mapM parseItem with
     | some v, some items =>
-      let dom := items.all fun it => match it with
+      -- `noEarlyFire` tries every prefix (quadratic): hypotheses of messages beyond 2600 bytes are not
+      -- evaluated, the session then counts as outside the theorems' domain (reason `big`); the
+      -- model run and the server-side oracle still apply to it
+      let big := fun (it : Item) => match it with
+        | .dlv d => decide (d.burst.bytes.length > 2600)
+        | .dlv2 d => decide (d.burst.bytes.length > 2600)
+        | _ => false
+      let dom := items.all fun it => !big it && match it with
         | .dlv d => d.valid v | .dlv2 d => d.valid v | .ev (.read _) => false | .reset => false | _ => true
       let rs := items.filterMap fun it => match it with
-        | .dlv d => some (deliveryReason v d) | .dlv2 d => some (delivery2Reason v d) | _ => none
+        | .dlv d => some (if big it then bigBurstReason v d.burst else deliveryReason v d)
+        | .dlv2 d => some (if big it then bigBurst2Reason v d.burst else delivery2Reason v d) | _ => none
       let sc := srun v sinit (items.flatMap subEvents)
       let reasons := if rs.isEmpty then "." else ",".intercalate rs
       let c := (items.foldl (runItem v) tinit).c
